@@ -1,5 +1,30 @@
-From Verif Require Import Common Op_Model Op_Corr C04_Spec.
-Definition case := Op_Corr.case.
-Definition model_obs := Op_Corr.model_obs.
-Definition mismatches := Op_Corr.mismatches.
-Definition spec_violations (cs : list case) : list N := indices_where (fun c => negb (P c)) cs.
+(* C04_Corr.v — two kinds of cases: operator-level scenarios (model Op_Model, spec
+   C04_Spec.P) and calls of CalculateDelayWithMax (model C04_Delay.delay). *)
+From Verif Require Import Common Op_Model Op_Corr C04_Spec C04_Delay.
+
+Inductive case :=
+| COp (c : Op_Corr.case)
+| CDelay (initial max retry : Z) (results : list Z).   (* distinct values returned by the code *)
+
+Inductive mobs := MOp (o : list sobs) | MDelay (first_values : list Z).
+
+Definition model_obs (c : case) : mobs :=
+  match c with
+  | COp c => MOp (Op_Corr.model_obs c)
+  | CDelay i m r _ => MDelay (map (delay i m r) [0; 1; 500; 999]%Z)
+  end.
+
+Definition agrees (c : case) : bool :=
+  match c with
+  | COp c => Op_Corr.agrees c
+  | CDelay i m r rs => forallb (possible i m r) rs
+  end.
+
+Definition spec_ok (c : case) : bool :=
+  match c with
+  | COp c => C04_Spec.P c
+  | CDelay i m r rs => forallb (fun x => Z.leb i x) rs       (* never shorter than the initial delay *)
+  end.
+
+Definition mismatches (cs : list case) : list N := indices_where (fun c => negb (agrees c)) cs.
+Definition spec_violations (cs : list case) : list N := indices_where (fun c => negb (spec_ok c)) cs.
